@@ -6,33 +6,6 @@ package rlwe
 // through their contracts (C02).  Dec_{s_out}(out) - Dec_{s_in}(in) must consist of error/rounding terms only (every
 // such term multiplied by digits, secrets or constants), for every admissible key parameterisation.
 
-func vIntP(v int) *int { return &v }
-
-func vAtomCiphertext(c *vCtx, degree, level int, name string) *Ciphertext {
-	ct := NewCiphertext(c.Params, degree, level)
-	r := c.Params.RingQ().AtLevel(level)
-	for i := range ct.Value {
-		vFillAtoms(r, ct.Value[i], name+string(rune('0'+i)), vUniform)
-	}
-	ct.IsNTT = c.Params.NTTFlag()
-	return ct
-}
-
-func vDecrypt(c *vCtx, d *Decryptor, ct *Ciphertext) *Plaintext {
-	pt := NewPlaintext(c.Params, ct.Level())
-	d.Decrypt(ct, pt)
-	return pt
-}
-
-// vNoiseBound: log2 bound used by the native runs.  With an auxiliary modulus or power-of-two digits the key-switch
-// noise is a few bits; with plain RNS digits and no P it is of the size of the largest prime (q_i * N * sigma).
-func vNoiseBound(c *vCtx, evkp EvaluationKeyParameters) int {
-	if c.Params.MaxLevelP() < 0 && (evkp.BaseTwoDecomposition == nil || *evkp.BaseTwoDecomposition == 0) {
-		return 58
-	}
-	return 40
-}
-
 func vKeySwitchCase(c *vCtx, evkp EvaluationKeyParameters, level int, tag string) {
 	params := c.Params
 	evk := c.Kgen.GenEvaluationKeyNew(c.Sk, c.Sk2, evkp)
